@@ -18,7 +18,7 @@ func checkC09(p *Program, r *Result) {
 		"(C09.d) no input can crash the readers (bounded-input engine and abort-call rule, shared with C10)."
 	r.NotDecided = []string{"that what is returned is a prefix through the zstd/lz4 streaming decoders (third-party)", "that every message of a completely written chunk is returned (run-time)"}
 	r.rule("C09.a", "writer never repositions or rewrites the destination", 40)
-	r.rule("C09.b", "a record is returned only after a successful full read of its declared length", 14)
+	r.rule("C09.b", "a record is returned only after a successful full read of its declared length", 2)
 	r.rule("C09.c", "source errors are classified before being replaced", 30)
 	r.rule("C09.d", "truncated input cannot crash the readers", 12)
 
